@@ -94,8 +94,16 @@ def _c01_2_case(text, join_name, sym_tasks=None):
         import sys
         spec = parse(text)
         db = minidb.MiniDB()
+        # only the ancestors of the join matter for its logical state
+        anc, todo = set(), [join_name]
+        while todo:
+            n = todo.pop()
+            for p_ in spec.find_inbound_task_specs(spec.get_tasks()[n]):
+                if p_.get_name() not in anc and p_.get_name() != join_name:
+                    anc.add(p_.get_name())
+                    todo.append(p_.get_name())
         names = [t.get_name() for t in spec.get_tasks()
-                 if t.get_name() != join_name]
+                 if t.get_name() in anc]
         execs = {}
         with minidb.installed(db), env.auth_ctx('proj-a'):
             db.put(models.WorkflowExecution, id='wf-1', name='wf',
@@ -199,6 +207,8 @@ def c01_2(ctx):
             sym = None
             if name == 'deep_chain':
                 sym = {'t1', 't2', 't6', 't7', 'x'} if ctx.quick else None
+            if name == 'join_partial_deep' and ctx.quick:
+                sym = {'s', 'x', 'y', 'a'}
             strong = None
             if name == 'cycle_upstream':
                 def strong(model):
@@ -250,7 +260,8 @@ def run_case(shape, text, preemptions, oid='C01.E', extra=None):
 
         def inf(s):
             d = dict(info)
-            d['signature'] = sig + s
+            d['signature'] = sig + s + (
+                ':after-' + ex.taint if ex.taint else '')
             d['engine'] = [wf_state, tasks]
             d['reference'] = [ref_wf, ref_tasks]
             return d
